@@ -8,6 +8,8 @@
 -/
 import PrologVerif.Proofs.Promise
 import PrologVerif.Model.PTree
+import PrologVerif.Proofs.VMCatchFlags
+import PrologVerif.Restate
 namespace PrologVerif.C04
 open PrologVerif PrologVerif.Promise
 
@@ -54,5 +56,179 @@ theorem C04_rearmed_catch_active (h : PTree.Handler) (e : Nat) (m : M PTree.St) 
 
 /-- a catch/3 is born active -/
 theorem C04_catch_born_active (f : Nat) : ({} : PTree.St).flag f = true := rfl
+
+end PrologVerif.C04
+
+/-! ## catch/3 and throw/1 of the VM model (proofs: Proofs/VMCatch.lean, Proofs/VMCatchFlags.lean)
+
+  Subject: `Model/VM.lean` — the builtins "catch" and "throw", `mkErr`, `renamedCopy`, the recovery
+  closure `evalRecover`, the thunks `.catchBody` / `.exitAlt`, the continuation `.catchExit`. -/
+
+namespace PrologVerif.C04
+open PrologVerif PrologVerif.Promise PrologVerif.VM PrologVerif.VMCatch
+open PrologVerif.Collect (vars)
+open PrologVerif.CollectSpec (Variant)
+
+/-- **C04_vm_copy_spec**: `renamedCopy t env m` (what `NewException` takes) is `t` with the bindings
+    applied and its variables renamed one to one (ISO variant) to variables in
+    `[old nextVar, new nextVar)`; nothing else in the state changes -/
+theorem C04_vm_copy_spec (t : Term) (env : Env) (m : MS) :
+    Variant (app env t) (renamedCopy t env m).1 ∧
+    (∀ v ∈ vars (renamedCopy t env m).1, m.user.nextVar ≤ v ∧ v < (renamedCopy t env m).2.user.nextVar) ∧
+    (renamedCopy t env m).2 =
+      { m with user := { m.user with nextVar := m.user.nextVar + (termVars (app env t) []).length } } :=
+  renamedCopy_spec t env m
+
+/-- **C04_vm_ball_is_copy**: `throw(B)`, `B` not a variable, raises an error whose term is a variant
+    of `B` with the bindings of the moment applied, over variables that did not exist before (all
+    `≥` the old `nextVar`): the ball shares no variable with the goal that threw it -/
+theorem C04_vm_ball_is_copy (n : Nat) (ball : Term) (k : Cont) (env : Env) (m : MS)
+    (hnv : ∀ v, res env ball ≠ .var v) :
+    ∃ c m', builtin (n + 1) "throw" [ball] k env m = some (some (errP (.exc c), m')) ∧
+      Variant (app env (res env ball)) c ∧
+      (∀ v ∈ vars c, m.user.nextVar ≤ v ∧ v < m'.user.nextVar) ∧
+      m' = { m with user := { m.user with nextVar := m.user.nextVar + (termVars (app env (res env ball)) []).length } } :=
+  vm_ball_is_copy n ball k env m hnv
+
+/-- resolving `B` first does not matter: `app env (res env B) = app env B` (if applying the bindings
+    finishes within the internal fuel) -/
+theorem C04_vm_ball_app_res (env : Env) (t b : Term) (h : resolve (inner - 1) env t = some b)
+    (hs : (applyAll inner env t).isSome = true) : res env t = b ∧ app env b = app env t :=
+  app_res env t b h hs
+
+/-- `throw(_)`: instantiation error -/
+theorem C04_vm_throw_var (n : Nat) (ball : Term) (k : Cont) (env : Env) (m : MS) (v : Nat)
+    (hv : res env ball = .var v) :
+    builtin (n + 1) "throw" [ball] k env m = some (some (mkErr instErr env m)) :=
+  vm_throw_var n ball k env m v hv
+
+/-- **C04_vm_builtin_error_is_copy**: errors raised by built-ins are balls of the same kind: the
+    copy of `error(Formal, Context)` -/
+theorem C04_vm_builtin_error_is_copy (formal : Term) (env : Env) (m : MS) :
+    ∃ c m', mkErr formal env m = (errP (.exc c), m') ∧
+      Variant (app env (.app "error" (.cons formal (.cons (.var varContext) .nil)))) c ∧
+      (∀ v ∈ vars c, m.user.nextVar ≤ v ∧ v < m'.user.nextVar) :=
+  vm_builtin_error_is_copy formal env m
+
+/-- **C04_vm_recovery_env**: an accepting catch/3 frame calls its recovery goal with the
+    continuation of the catch/3 call (`h.k`) under `env'` = the unifier of catcher and ball over the
+    environment captured when catch/3 was called (`h.env`): its solutions are exactly the solutions
+    of `h.env` that unify catcher and ball — every binding made since the call is absent -/
+theorem C04_vm_recovery_env (h : Handler) (e : Err) (m : MS) (env' : Env)
+    (hflag : m.user.flag h.flag = true)
+    (hu : unify inner false h.env h.catcher (ballOf e) = some (env', .ok)) :
+    evalRecover h e m = (some (callGoal h.recover h.k env' m).1, (callGoal h.recover h.k env' m).2) ∧
+    ∀ θ, Sol env' θ ↔ (Sol h.env θ ∧ Unifies θ h.catcher (ballOf e)) :=
+  vm_recovery_env h e m env' hflag hu
+
+/-- **C04_vm_recovery_declines**: an inactive flag or a catcher that does not unify declines,
+    leaving the state untouched; there is no other way to decline -/
+theorem C04_vm_recovery_declines (h : Handler) (e : Err) (m : MS) :
+    (Declines h e m → evalRecover h e m = (none, m)) ∧
+    ((evalRecover h e m).1 = none → Declines h e m) :=
+  vm_recovery_declines h e m
+
+/-- a catcher that does not unify: no solution of the call-time environment unifies it with the ball -/
+theorem C04_vm_recovery_declines_sound (h : Handler) (e : Err) (env' : Env) (r : Res)
+    (hu : unify inner false h.env h.catcher (ballOf e) = some (env', r)) (hr : r ≠ .ok) :
+    ∀ θ, Sol h.env θ → ¬ Unifies θ h.catcher (ballOf e) :=
+  vm_recovery_declines_sound h e env' r hu hr
+
+/-- **C04_vm_catch_flag_fresh** (flag protocol, 1): catch/3 draws its activity flag with `freshId`;
+    in a well-formed state (`FlagsBelow`, kept by every step: `C04_vm_flags_wellformed_preserved`)
+    the flag has never been written — the catch is born active — and differs from the flag of every
+    other catch/3 frame, thunk and continuation in existence -/
+theorem C04_vm_catch_flag_fresh (n : Nat) (goal catcher recover : Term) (k : Cont) (env : Env) (m : MS)
+    (hm : FlagsBelow m.user) :
+    builtin (n + 1) "catch" [goal, catcher, recover] k env m =
+      some (some ({ delayed := [.catchBody goal m.user.nextId k env],
+                    recover := some ⟨m.user.nextId, catcher, recover, k, env⟩ }, (freshId m).2)) ∧
+    (freshId m).2.user.flag m.user.nextId = true ∧
+    (∀ b, (m.user.nextId, b) ∉ (freshId m).2.user.flags) ∧
+    (∀ q, prFl m.user.nextId q → ∀ h, q.recover = some h → h.flag ≠ m.user.nextId) ∧
+    (∀ f b k' env', thunkFl m.user.nextId (.exitAlt f b k' env') → f ≠ m.user.nextId) :=
+  vm_catch_flag_fresh n goal catcher recover k env m hm
+
+/-- the environment the recovery closure captures is the environment of the catch/3 CALL (plus
+    `Arrive`'s binding of the context variable to `catch/3`) -/
+theorem C04_vm_catch_arrive (n : Nat) (goal catcher recover : Term) (k : Cont) (env : Env) (m : MS) :
+    arrive (n + 2) "catch" [goal, catcher, recover] k env m =
+      some ({ delayed := [.catchBody goal m.user.nextId k
+                (env.bind varContext (.app "/" (.cons (.atom "catch") (.cons (.int 3) .nil))))],
+              recover := some ⟨m.user.nextId, catcher, recover, k,
+                env.bind varContext (.app "/" (.cons (.atom "catch") (.cons (.int 3) .nil)))⟩ }, (freshId m).2) :=
+  vm_catch_arrive n goal catcher recover k env m
+
+/- **C04_vm_flags_wellformed_preserved**: every step of the VM keeps "all flags mentioned or written
+    are below `nextId`", and `nextId` only grows -/
+restate C04_vm_flags_wellformed_preserved := VMCatch.vm_flags_wellformed_preserved
+
+/-- the invariant holds along every query run -/
+theorem C04_vm_run_flags_ok (fuel : Nat) (prog : List Term) (query : Term) (max : Nat) (ca : Option Nat)
+    (r : Promise.Res Err) (m' : MS) (h : VMCancel.runQueryM fuel prog query max ca = some (r, m')) :
+    FlagsBelow m'.user :=
+  vm_run_flags_ok fuel prog query max ca r m' h
+
+/-- (flag protocol, 2) the thunk of catch/3 calls `Goal` with the exit continuation -/
+theorem C04_vm_catch_body (n : Nat) (goal : Term) (flag : Nat) (k : Cont) (env : Env) (m : MS) :
+    evalThunk (n + 1) (.catchBody goal flag k env) m = some (callGoal goal (.catchExit flag k) env m) :=
+  vm_catch_body n goal flag k env m
+
+/-- **C04_vm_catch_exit** (flag protocol, 3): every exit of `Goal` returns a promise with exactly two
+    alternatives: "flag OFF, then the continuation of catch/3" and "flag ON, then fail" -/
+theorem C04_vm_catch_exit (n : Nat) (flag : Nat) (k : Cont) (env : Env) (m : MS) :
+    applyCont (n + 1) (.catchExit flag k) env m =
+      some ({ id := m.user.nextId,
+              delayed := [.exitAlt flag false (some k) env, .exitAlt flag true none env] }, (freshId m).2) :=
+  vm_catch_exit n flag k env m
+
+/-- (flag protocol, 4) the first alternative switches exactly this flag off and runs the continuation -/
+theorem C04_vm_exit_alt_off (n : Nat) (flag : Nat) (k : Cont) (env : Env) (m : MS) :
+    evalThunk (n + 1) (.exitAlt flag false (some k) env) m = applyCont n k env (setFlag m flag false) ∧
+    (setFlag m flag false).user.flag flag = false ∧
+    ∀ f, f ≠ flag → (setFlag m flag false).user.flag f = m.user.flag f :=
+  vm_exit_alt_off n flag k env m
+
+/-- (flag protocol, 5) the second alternative switches exactly this flag on again and fails -/
+theorem C04_vm_exit_alt_on (n : Nat) (flag : Nat) (env : Env) (m : MS) :
+    evalThunk (n + 1) (.exitAlt flag true none env) m = some (failP, setFlag m flag true) ∧
+    (setFlag m flag true).user.flag flag = true ∧
+    ∀ f, f ≠ flag → (setFlag m flag true).user.flag f = m.user.flag f :=
+  vm_exit_alt_on n flag env m
+
+/-- while the flag is off the frame declines every error (cf. `C04_exited_catch_inactive`) -/
+theorem C04_vm_exited_catch_inactive (h : Handler) (e : Err) (m : MS) (hf : m.user.flag h.flag = false) :
+    evalRecover h e m = (none, m) :=
+  vm_inactive_declines h e m hf
+
+/- **C04_vm_catch_exit_run** (flag protocol on the trampoline): with the exit promise on top,
+    iteration 1 switches the flag off and runs the continuation of catch/3; if that fails, the next
+    iterations switch the flag on again and fall back to the stack below (into `Goal`) -/
+restate C04_vm_catch_exit_run := VMCatch.vm_catch_exit_run
+
+/-- **C04_vm_throw_to_innermost**: an error promise on top of the stack `above ++ frame :: below`;
+    every catch/3 frame of `above` declines (inactive or not unifying), `frame` is active and its
+    catcher unifies with the ball: in ONE iteration the frames of `above` are discarded, `frame` is
+    replaced by its recovery goal called with the continuation of that catch/3 call under the
+    unifier over its call-time environment, `below` is untouched -/
+theorem C04_vm_throw_to_innermost (fuel n : Nat) (ca : Option Nat) (p : Pr) (e : Err) (above : List Pr)
+    (frame : Pr) (below : List Pr) (m : MS) (hd : Handler) (env' : Env)
+    (hnc : isCancelled ca m.iter = false) (hpd : p.delayed = []) (hpe : p.err = some e)
+    (habove : ∀ q ∈ above, ∀ h, q.recover = some h → Declines h e { m with iter := m.iter + 1 })
+    (hr : frame.recover = some hd) (hflag : m.user.flag hd.flag = true)
+    (hu : unify inner false hd.env hd.catcher (ballOf e) = some (env', .ok)) :
+    force (VM.sem fuel) ca (n + 1) (p :: (above ++ frame :: below)) m =
+      force (VM.sem fuel) ca n
+        ((callGoal hd.recover hd.k env' { m with iter := m.iter + 1 }).1 :: below)
+        (callGoal hd.recover hd.k env' { m with iter := m.iter + 1 }).2 ∧
+    ∀ θ, Sol env' θ ↔ (Sol hd.env θ ∧ Unifies θ hd.catcher (ballOf e)) :=
+  vm_throw_to_innermost fuel n ca p e above frame below m hd env' hnc hpd hpe habove hr hflag hu
+
+/-- **C04_vm_throw_unhandled**: every frame declines: the run ends with the error carrying the ball -/
+theorem C04_vm_throw_unhandled (fuel n : Nat) (ca : Option Nat) (p : Pr) (e : Err) (stack : List Pr) (m : MS)
+    (hnc : isCancelled ca m.iter = false) (hpd : p.delayed = []) (hpe : p.err = some e)
+    (hall : ∀ q ∈ stack, ∀ h, q.recover = some h → Declines h e { m with iter := m.iter + 1 }) :
+    force (VM.sem fuel) ca (n + 1) (p :: stack) m = some (.error e, { m with iter := m.iter + 1 }) :=
+  vm_throw_unhandled fuel n ca p e stack m hnc hpd hpe hall
 
 end PrologVerif.C04
